@@ -96,6 +96,12 @@ func (c05) Generate(r *engine.Rand, index int, tier string) *engine.Scenario {
 		sc.Class = "ime1"
 		sc.SetP("ime", 1)
 		g.preOp = []byte{0x76}
+		if r.Chance(1, 8) {
+			// the dispatch that ends the HALT pushes onto IE (SP=0000: the high byte of the return address,
+			// SP=0001: the low byte): the request that woke the CPU is the one dispatched; handlers park
+			g.preOp = []byte{0x31, uint8(r.Intn(2)), 0x00, 0x76}
+			sc.Class = "ime1-stack-on-ie"
+		}
 		g.emitUnit(lockstepOps[(index/3)%len(lockstepOps)], false, false)
 	case 1: // IME=0, nothing pending: idle, resume without dispatch
 		sc.Class = "ime0-idle"
@@ -127,7 +133,7 @@ func (c05) Generate(r *engine.Rand, index int, tier string) *engine.Scenario {
 	}
 	if k >= 0 {
 		sc.Events = append(sc.Events, engine.Event{K: "irq_h", A: enabledLine(), N: k})
-		if r.Chance(1, 4) {
+		if r.Chance(1, 4) && sc.Class != "ime1-stack-on-ie" {
 			sc.Events = append(sc.Events, engine.Event{K: "irq_h", A: enabledLine(), N: k + int64(r.Intn(4))})
 		}
 	}
@@ -137,6 +143,9 @@ func (c05) Generate(r *engine.Rand, index int, tier string) *engine.Scenario {
 	g.emit(0x00, 0x00)
 	g.finish()
 	lsScenario(sc, r, g)
+	if sc.Class == "ime1-stack-on-ie" {
+		sc.Cart.Handler = "18fe"
+	}
 	sc.SetP("ie", int64(ie)|int64(r.Byte()&0xe0))
 	sc.SetP("if", int64(iff))
 	// a key event while idling must not wake the CPU (the joypad line is never raised by the emulator)
